@@ -215,7 +215,11 @@ VSread(int32 vkey,  /* IN: vdata key */
     /* read/write lists */
     w           = &(vs->wlist);
     r           = &(vs->rlist);
-    hsize       = (int)vs->wlist.ivsize; /* size as stored in HDF */
+    hsize = (int)vs->wlist.ivsize; /* size as stored in HDF */
+
+    /* the byte count of the request must be representable */
+    if (hsize > 0 && nelt > INT32_MAX / hsize)
+        HGOTO_ERROR(DFE_ARGS, FAIL);
     total_bytes = hsize * nelt;
 
     /*
@@ -510,7 +514,11 @@ VSwrite(int32       vkey,  /* IN: vdata key */
     if (interlace != NO_INTERLACE && interlace != FULL_INTERLACE)
         HGOTO_ERROR(DFE_ARGS, FAIL);
 
-    hdf_size    = (int)w->ivsize; /* as stored in HDF file */
+    hdf_size = (int)w->ivsize; /* as stored in HDF file */
+
+    /* the byte count of the request must be representable */
+    if (hdf_size > 0 && nelt > INT32_MAX / hdf_size)
+        HGOTO_ERROR(DFE_ARGS, FAIL);
     total_bytes = hdf_size * nelt;
 
     /* make sure we have a valid AID */
